@@ -62,12 +62,17 @@ DeclText(f, d, k) == (IF Loose(f) THEN Eol(f) ELSE "")
                      \o (IF d.kind = "ext" THEN "extend" \o Gap(f) \o "type" \o Gap(f) ELSE "type" \o Gap(f)) \o d.name \o Eol(f)
                      \o (IF Len(d.rels) > 0 THEN "  relations" \o Eol(f) \o RelLines(f, d.rels, 1, k) ELSE "")
 DeclLen(f, d) == (IF Loose(f) THEN 1 ELSE 0) + 1 + (IF Len(d.rels) > 0 THEN 1 + Len(d.rels) + (IF Cont(f) THEN 1 ELSE 0) ELSE 0)
-CondText(f, c, k) == (IF Loose(f) THEN Eol(f) ELSE "") \o "condition" \o Gap(f) \o c \o (IF Loose(f) THEN " (x: int) {" ELSE "(x: int) {") \o Eol(f) \o "  x < " \o ToString(k) \o Eol(f) \o "}" \o Eol(f)
-CondLen(f) == IF Loose(f) THEN 4 ELSE 3
+\* f.lure: the body of every condition begins with a line that reads like the header of the condition declared next (CEL text is not
+\* checked by the DSL parser): it looks like a declaration, it is none
+Lure(f) == "lure" \in DOMAIN f /\ f.lure
+CondText(f, c, k, next) == (IF Loose(f) THEN Eol(f) ELSE "") \o "condition" \o Gap(f) \o c \o (IF Loose(f) THEN " (x: int) {" ELSE "(x: int) {") \o Eol(f)
+                           \o (IF Lure(f) THEN "  condition " \o next \o " (x) ||" \o Eol(f) ELSE "")
+                           \o "  x < " \o ToString(k) \o Eol(f) \o "}" \o Eol(f)
+CondLen(f) == (IF Loose(f) THEN 4 ELSE 3) + (IF Lure(f) THEN 1 ELSE 0)
 RECURSIVE DeclsText(_, _, _, _)
 DeclsText(f, ds, i, k) == IF i > Len(ds) THEN "" ELSE DeclText(f, ds[i], k) \o DeclsText(f, ds, i + 1, k)
 RECURSIVE CondsText(_, _, _, _)
-CondsText(f, cs, i, k) == IF i > Len(cs) THEN "" ELSE CondText(f, cs[i], k) \o CondsText(f, cs, i + 1, k)
+CondsText(f, cs, i, k) == IF i > Len(cs) THEN "" ELSE CondText(f, cs[i], k, cs[IF i < Len(cs) THEN i + 1 ELSE i]) \o CondsText(f, cs, i + 1, k)
 HeaderText(f) == IF f.header = "#" THEN "# nothing declared here" \o Eol(f) \o "  " \o Eol(f) \o "  # (yet)" \o Eol(f) ELSE
                  (IF Modular(f) THEN "module " \o f.header \o Eol(f) ELSE "model" \o Eol(f) \o "  schema 1.1" \o Eol(f)) \o (IF Loose(f) THEN "# declarations of " \o f.name \o Pad(f) \o Eol(f) ELSE "")
 HeaderLen(f) == (IF Modular(f) THEN 1 ELSE 2) + (IF Loose(f) THEN 1 ELSE 0)
